@@ -52,7 +52,7 @@ TRIGGERS = {
     "text-undefined-unreadable": ["undefined"],
     "text-memcpy-unreadable": ["memcpy"],
     "text-inline-asm-unreadable": ["inline-asm"],
-    "text-forward-reference-typed-i32": ["fwd-binop-non-i32", "fwd-unop"],
+    "text-forward-reference-typed-i32": ["fwd-conflict-text"],
     "text-underscore-name-unreadable": ["uscore-name"],
     "parameter-name-not-reserved": ["param-clash"],
 }
@@ -289,6 +289,20 @@ def _w_forward_unop():
     return irrt.directed_forward("unop", ir.i32)
 
 
+def _w_forward_mixed():
+    from ppci import ir
+    from vlib import irrt
+
+    return irrt.directed_mixed_forward(ir.i32)
+
+
+def _w_forward_selfphi():
+    from ppci import ir
+    from vlib import irrt
+
+    return irrt.directed_selfphi_forward(ir.u8)
+
+
 def _w_paramclash():
     from ppci import api
 
@@ -323,7 +337,8 @@ PROBES = {
     "text-undefined-unreadable": _probe(_one(_i32, _p_i32, _w_undefined)),
     "text-memcpy-unreadable": _probe(_one(_i32, _p_i32, _w_memcpy)),
     "text-inline-asm-unreadable": _probe(_one(_i32, _p_i32, _w_asm)),
-    "text-forward-reference-typed-i32": _both(_probe(_w_forward), _probe(_w_forward_unop)),
+    "text-forward-reference-typed-i32": _both(_probe(_w_forward), _probe(_w_forward_unop), _probe(_w_forward_mixed),
+                                              _probe(_w_forward_selfphi)),
     "text-underscore-name-unreadable": _probe(_one(_i32, _p_none, _w_uscore)),
     "parameter-name-not-reserved": _probe(_w_paramclash),
 }
